@@ -160,6 +160,9 @@ class IntervalTier(textgrid_tier.TextgridTier):
             newEntryList = [
                 Interval(start - timeDiff, end - timeDiff, label)
                 for start, end, label in newEntryList
+                # a piece cut off within a few ulps of the crop boundary
+                # can round to zero length when it is rebased
+                if start - timeDiff < end - timeDiff
             ]
             minT = 0.0
             maxT = cropEnd - cropStart
